@@ -3,7 +3,7 @@
    Proofs/PrimProofs.v.  Models: Base/Prim.v (transliteration of
    common/construct_utils.py, common/utils.py, construct FormatField/CString/
    PrefixedArray, dwarf/structs.py _InitialLengthAdapter). *)
-From PV Require Import Base.Bytes Base.Outcome Base.Prim Spec.PrimSpec Proofs.PrimProofs Gen.PyFuns Proofs.PyFunsC16.
+From PV Require Import Base.Bytes Base.Outcome Base.Prim Spec.PrimSpec Proofs.PrimProofs Gen.PyFuns Gen.C16Prims Proofs.PyFunsC16.
 
 (* every valid ULEB128 encoding, minimal or not, any length, any following bytes *)
 Theorem C16_uleb_valid : forall bs v tail,
@@ -81,6 +81,20 @@ Theorem C16_translated_sleb_total : forall bs,
   all_bytes bs = true -> gen_SLEB128_parse bs = res_of_dec (sleb_spec bs).
 Proof. exact gen_sleb_total. Qed.
 Print Assumptions C16_translated_sleb_total.
+
+(* ---- the named integer fields of the struct factories (DWARFStructs Dwarf_uintN/intN/offset/length/
+   target_addr over every byte order x DWARF format x address size; ELFStructs Elf_half/word/... over
+   every byte order x class), read from the LIVE objects on every run (Gen/C16Prims.v), are the
+   fields of the standards: signedness, width and byte order, for ALL configurations (finite, complete) *)
+Theorem C16_gen_dwarf_prims_standard :
+  gen_dwarf_prims = map (fun c => (c, spec_dwarf_prims (fst (fst c)) (snd (fst c)) (snd c))) all_dwarf_cfgs.
+Proof. vm_compute. reflexivity. Qed.
+Print Assumptions C16_gen_dwarf_prims_standard.
+
+Theorem C16_gen_elf_prims_standard :
+  gen_elf_prims = map (fun c => (c, spec_elf_prims (fst c) (snd c))) all_elf_cfgs.
+Proof. vm_compute. reflexivity. Qed.
+Print Assumptions C16_gen_elf_prims_standard.
 
 (* fixed-width integers, both byte orders, any width *)
 Theorem C16_uint_valid : forall le n v tail,
